@@ -101,6 +101,20 @@ Theorem lincomb_ignores_old_out :
 Proof. exact @lincomb_poison_ok. Qed.
 Print Assumptions lincomb_ignores_old_out.
 
+(* the same for NumpyTensorSpace._lincomb as a whole (regime chosen by the regenerated dispatch):
+   e.g. x + y, a * x, x.copy() never depend on what space.element() left in the fresh output *)
+Theorem lincomb_impl_ignores_old_out :
+  forall (T : Type) (N : Num T) (F : NumField T)
+         (floating blas_dtype : bool) (f1 f2 fo : bool * bool) (a b : T) (i1 i2 io : nat)
+         (s : store (option T)) (x1 x2 : list T),
+  s i1 = map Some x1 -> s i2 = map Some x2 ->
+  length x1 = length x2 -> length (s io) = length x1 ->
+  exists s', lincomb_impl (fun u => u) floating blas_dtype [f1; f2; fo] (Some a) i1 (Some b) i2 io s = Ok s'
+          /\ s' io = map Some (vlin a x1 b x2)
+          /\ forall j, j <> io -> s' j = s j.
+Proof. exact @lincomb_impl_poison. Qed.
+Print Assumptions lincomb_impl_ignores_old_out.
+
 (* set_zero() is lincomb(0, y, 0, y, out=y).  FULL STATEMENT (refuted below):
      forall r i s,  exists s', lincomb_fuel 2 id r bi {0, 0, i, i, i} s = Ok s'
                                /\ s' i = map (fun _ => Some 0) (s i)
